@@ -327,7 +327,7 @@ class CallMixin:
                 run.assume(z3.Not(rs.when(sc)))
         # effects performed by the callee (dominance through callees)
         for eff in c.effects:
-            run.event(eff[0], via=fi.key, lineno=ln, args=list(args), heap=self.heap.snapshot(), index=len(run.events))
+            run.event(eff[0], via=fi.key, lineno=ln, args=list(args), kwargs=dict(kwargs), heap=self.heap.snapshot(), index=len(run.events))
         # frame + havoc
         if c.modifies is not None:
             mods_ = list(c.modifies(sc))
